@@ -94,3 +94,95 @@ Lemma allow_first_serves_denied :
   is_allowed_allow_first nat Nat.eqb (Some (mkAccess nat (Some [7]) (Some [7]))) 7 = true /\
   is_allowed nat Nat.eqb (Some (mkAccess nat (Some [7]) (Some [7]))) 7 = false.
 Proof. split; reflexivity. Qed.
+
+(* ---- the trusted set as the replay of the device log ---- *)
+Section DeviceLemmas.
+Variable key : Type.
+Variable key_eqb : key -> key -> bool.
+Hypothesis key_eqb_spec : forall a b, key_eqb a b = true <-> a = b.
+Notation dev_step := (dev_step key key_eqb).
+Notation reduce_devices := (reduce_devices key key_eqb).
+Notation last_about := (last_about key key_eqb).
+
+Lemma key_eqb_refl k : key_eqb k k = true. Proof. apply key_eqb_spec. reflexivity. Qed.
+Lemma key_eqb_neq a b : a <> b -> key_eqb a b = false.
+Proof. intro H. destruct (key_eqb a b) eqn:E; [apply key_eqb_spec in E; contradiction|reflexivity]. Qed.
+
+Lemma fold_in k log : forall ds acc, (In k ds <-> acc = Some true) ->
+  (In k (fold_left dev_step log ds) <-> last_about k log acc = Some true).
+Proof.
+  induction log as [|e log IH]; intros ds acc H; cbn [fold_left Auth.last_about]; [exact H|].
+  destruct e as [j|j|]; cbn [Auth.dev_step].
+  - destruct (key_eqb j k) eqn:E.
+    + apply key_eqb_spec in E. subst j. apply IH. split; [reflexivity|]. intros _.
+      destruct (existsb (key_eqb k) ds) eqn:Ex.
+      * apply existsb_exists in Ex. destruct Ex as (x & Hx & Hk). apply key_eqb_spec in Hk. subst x. exact Hx.
+      * apply in_or_app. right. left. reflexivity.
+    + apply IH. rewrite <- H. destruct (existsb (key_eqb j) ds); [reflexivity|].
+      split; [|intro Hi; apply in_or_app; left; exact Hi].
+      intro Hi. apply in_app_or in Hi. destruct Hi as [Hi|[Hi|[]]]; [exact Hi|].
+      subst j. rewrite key_eqb_refl in E. discriminate.
+  - destruct (key_eqb j k) eqn:E.
+    + apply key_eqb_spec in E. subst j. apply IH. split; [|discriminate].
+      intro Hi. apply filter_In in Hi. destruct Hi as [_ Hi]. rewrite key_eqb_refl in Hi. discriminate.
+    + apply IH. rewrite <- H. rewrite filter_In. split; [tauto|]. intro Hi. split; [exact Hi|].
+      destruct (key_eqb k j) eqn:E2; [|reflexivity]. apply key_eqb_spec in E2. subst j. rewrite key_eqb_refl in E. discriminate.
+  - apply IH. exact H.
+Qed.
+
+(* a key is trusted exactly when the last event of the device log that names it is a Trust *)
+Theorem trusted_iff_last_trust log k : In k (reduce_devices log) <-> last_about k log None = Some true.
+Proof. unfold Auth.reduce_devices. apply fold_in. split; [intros []|discriminate]. Qed.
+
+Lemma last_about_app k l1 : forall l2 acc, last_about k (l1 ++ l2) acc = last_about k l2 (last_about k l1 acc).
+Proof.
+  induction l1 as [|e l1 IH]; intros l2 acc; [reflexivity|]. cbn [app Auth.last_about].
+  destruct e as [j|j|]; apply IH.
+Qed.
+(* whatever came before — trusted once, or trusted, revoked and trusted again — a device whose key
+   was revoked last is not in the trusted set; a second, byte-identical Revoke counts like the first *)
+Theorem revoked_not_trusted log k : ~ In k (reduce_devices (log ++ [DevRevoke key k])).
+Proof.
+  rewrite trusted_iff_last_trust, last_about_app. cbn [Auth.last_about]. rewrite key_eqb_refl. discriminate.
+Qed.
+Theorem trusted_after_trust log k : In k (reduce_devices (log ++ [DevTrust key k])).
+Proof. rewrite trusted_iff_last_trust, last_about_app. cbn [Auth.last_about]. rewrite key_eqb_refl. reflexivity. Qed.
+(* events about other keys do not change whether k is trusted *)
+Theorem other_events_irrelevant log rest k :
+  (forall e, In e rest -> e <> DevTrust key k /\ e <> DevRevoke key k) ->
+  (In k (reduce_devices (log ++ rest)) <-> In k (reduce_devices log)).
+Proof.
+  intro H. rewrite !trusted_iff_last_trust, last_about_app.
+  assert (forall acc, last_about k rest acc = acc) as Hr; [|rewrite Hr; reflexivity].
+  induction rest as [|e rest IH]; intro acc; [reflexivity|]. cbn [Auth.last_about].
+  assert (forall e', In e' rest -> e' <> DevTrust key k /\ e' <> DevRevoke key k) as H' by (intros e' He'; apply H; right; exact He').
+  destruct e as [j|j|].
+  - rewrite key_eqb_neq; [apply IH, H'|]. intro Ej. subst j. destruct (H (DevTrust key k) (or_introl eq_refl)) as [Hc _]. apply Hc. reflexivity.
+  - rewrite key_eqb_neq; [apply IH, H'|]. intro Ej. subst j. destruct (H (DevRevoke key k) (or_introl eq_refl)) as [_ Hc]. apply Hc. reflexivity.
+  - apply IH, H'.
+Qed.
+End DeviceLemmas.
+
+(* end to end: a request whose signature verifies under one key only is refused once the device log's
+   last word on that key is not a Trust *)
+Section RevokedRefused.
+Variables account key sig msg : Type.
+Variable account_eqb : account -> account -> bool.
+Variable verify : key -> msg -> sig -> bool.
+Variable key_eqb : key -> key -> bool.
+Hypothesis key_eqb_spec : forall a b, key_eqb a b = true <-> a = b.
+Theorem revoked_device_refused cfg (logs : account -> option (list (dev_event key))) r a log k s :
+  ar_account _ _ _ r = Some a -> ar_token _ _ _ r = TokSig _ s -> logs a = Some log ->
+  (forall k', verify k' (ar_signed _ _ _ r) s = true -> k' = k) ->
+  last_about key key_eqb k log None <> Some true ->
+  authorize account key sig msg account_eqb verify cfg
+    (fun a => option_map (reduce_devices key key_eqb) (logs a)) r <> Accept.
+Proof.
+  intros Ha Ht Hl Honly Hlast.
+  apply (unverified_refused account key sig msg account_eqb verify cfg _ r a (reduce_devices key key_eqb log) Ha).
+  - rewrite Hl. reflexivity.
+  - intros s' k' Ht' Hin. rewrite Ht in Ht'. injection Ht' as <-.
+    destruct (verify k' (ar_signed _ _ _ r) s) eqn:Ev; [|reflexivity]. exfalso.
+    apply Honly in Ev. subst k'. apply Hlast. apply (trusted_iff_last_trust key key_eqb key_eqb_spec). exact Hin.
+Qed.
+End RevokedRefused.
